@@ -12,7 +12,7 @@ import (
 func init() {
 	register(&PropRule{
 		ID:    "C30",
-		Roots: []string{"./private/segment/segfetcher"},
+		Roots: []string{"./private/segment/segfetcher", "./private/path/combinator"},
 		Explain: "Decides the structural clauses of the path lookup: (S1) the complete request table of " +
 			"MultiSegmentSplitter.Split over (inspector set, source core, destination core, single " +
 			"core AS zero / equal source / equal destination, same ISD, wildcard destination, inspect " +
@@ -223,6 +223,10 @@ func accessPath(v ssa.Value) string {
 }
 
 func runC30(c *Ctx) {
+	// the expiry the pather filters on is computed from the hop fields Path() builds
+	if pv := c.View("(*private/path/combinator.pathSolution).Path"); pv != nil {
+		hopFieldProvenance(c, pv, "X2-expiry-of-the-hops-in-the-path")
+	}
 	sp := "private/segment/segfetcher."
 	// The requests issued for a lookup depend on the kinds of source and destination AS
 	// as the trust store reports them NOW: neither the splitter nor the pather keeps
